@@ -501,6 +501,13 @@ struct hawk_rtx_t
 	{
 		void* rs[2];
 		void* fs[2];
+		/* the text of RS and of FS made when they were assigned, as characters
+		 * and as bytes. ptr is HAWK_NULL while the variable is nil. rs[] and
+		 * fs[] are compiled from it and every reader and splitter goes by it */
+		hawk_oocs_t rstext;
+		hawk_bcs_t rsbtext;
+		hawk_oocs_t fstext;
+		hawk_bcs_t fsbtext;
 		int ignorecase;
 		int striprecspc;
 		int stripstrspc;
